@@ -122,6 +122,16 @@ func (sc *c15Scenario) c15HookFunc(w *cworld, st *c15HookState) vh.HookFunc {
 					return 429, h, []byte(""), false
 				case "garbage":
 					return 200, h, []byte("{not json"), false
+				case "empty":
+					return 200, h, []byte(""), false
+				case "429-no-retry-after":
+					return 429, h, []byte(""), false
+				case "":
+				default:
+					var code int
+					if _, err := fmt.Sscanf(sc.Hook.Fail[idx], "%d", &code); err == nil && code >= 300 {
+						return code, h, []byte("upstream says no"), false
+					}
 				}
 			}
 			if sc.Hook.Raw != "" {
